@@ -24,8 +24,9 @@ RMul(a, b) == LET g1 == Gcd(IAbs(a[1]), b[2])  g2 == Gcd(IAbs(b[1]), a[2]) IN
               ELSE <<(a[1] \div g1) * (b[1] \div g2), (a[2] \div g2) * (b[2] \div g1)>>
 RDiv(a, b) == RMul(a, IF b[1] < 0 THEN <<-b[2], -b[1]>> ELSE <<b[2], b[1]>>)
 RNeg(a)    == <<-a[1], a[2]>>
-RLt(a, b)  == a[1] * b[2] < b[1] * a[2]
-RLe(a, b)  == a[1] * b[2] <= b[1] * a[2]
+\* (compared over the least common denominator: the plain cross product overflows TLC's 32-bit integers for 2^-6 .. 2^14 sizes)
+RLt(a, b)  == LET g == Gcd(a[2], b[2]) IN a[1] * (b[2] \div g) < b[1] * (a[2] \div g)
+RLe(a, b)  == LET g == Gcd(a[2], b[2]) IN a[1] * (b[2] \div g) <= b[1] * (a[2] \div g)
 RMin(a, b) == IF RLe(a, b) THEN a ELSE b
 RMax(a, b) == IF RLe(a, b) THEN b ELSE a
 RAbs(a)    == <<IAbs(a[1]), a[2]>>
